@@ -275,6 +275,6 @@ def search(ctx):
 
 CLAIM = {
     "text": "Coq theorems over a faithful Gallina model of scalar.rs: exact characterisation of to_u64 / to_i64 (accepted language, decimal value, range, completeness for every [+]0*dec(v) rendering, i64::MIN refused), to_bool, and of to_f64 over Flocq binary64 (accepted language, integer guard at 2^53-1 exact, finite results, correct rounding for digit integers below 2^53 with at most 22 fractional digits via Bdiv_correct). The model is tied to the code by differential execution (extracted Flocq vs Rust, f64 compared by bit pattern) on exhaustive small strings, boundary neighbourhoods, 0..25 fractional digits and random long strings; oracles in exact Python arithmetic are evaluated on the implementation's outputs",
-    "note": "Trusted: Coq kernel, Flocq (standard real-number axioms), tools/gen_tables.py (POWER_OF_TEN exponents, 2^53-1 guard), extraction, harness. The <=2ulp clause for digit integers >= 2^53 is carried by the oracle stream only.",
+    "note": "Trusted: Coq kernel, Flocq (standard real-number axioms), tools/gen_tables.py (POWER_OF_TEN exponents, 2^53-1 guard), extraction, harness. The <=2ulp clause is a theorem too (Props/C11_ulp.v: C11_to_f64_2ulp, C11_to_f64_spec), with ulp taken at the exact decimal value.",
     "technique": "machine-checked proof in Coq over an executable model + model/implementation correspondence by extraction",
 }
